@@ -927,6 +927,11 @@ class Ones(_Ctor):
 
 
 @register
+class Rand(_Ctor):
+    name, func = 'fn:rand', 'rand'
+
+
+@register
 class Eye(Contract):
     name, func, cls = 'fn:eye', 'eye', None
     props = ('C01', 'C06')
